@@ -3,11 +3,18 @@
 ENGINE = ["engine/prog.c", "engine/tramp.S"]
 
 PROPS = {}
+NOT_CLAIMED = {}
 
 PROPS["C01"] = dict(
     variant="plain",
     sources=ENGINE + ["props/c01_native.c"],
     level="exploration",
+    technique="differential testing (native vs emulation) over rapidcheck-generated programs and exhaustive single-opcode enumeration",
+    level_text=("generated-input search: every single-opcode program form is enumerated on all three x86 backends (with all 2^16 operand "
+                "pairs for 8-bit opcodes) and random multi-instruction programs are explored with shrinking; it shows absence of "
+                "disagreement only on what was explored, which is the right level for a property quantified over all programs and inputs"),
+    level_note=("trusted base: orc_executor_emulate as the reference (its own meaning is C02's business), the array arena and the "
+                "assembly trampoline of /verif; known findings excluded by construction are listed in known_findings.json"),
     stages=[
         dict(name="enum-single-opcode", mode="enum",
              quick=dict(budget=45), thorough=dict(budget=900)),
